@@ -50,7 +50,8 @@ def expressions():
     for (_, cn, fmt), a in itertools.product(UNOPS, ATOMS):
         out.append((f"CUn {cn}", (a[0],), fmt.format(a=a[1]), f"(CUn {cn} {a[2]})"))
     for c, t, e in itertools.product(ATOMS, ATOMS, ATOMS):
-        out.append(("CIf", (c[0], t[0], e[0]), f"if {c[1]} then {t[1]} else {e[1]}", f"(CIf {c[2]} {t[2]} {e[2]})"))
+        if c[0].startswith("col:"):   # a literal condition is evaluated at scalar level (another code path, outside the judgement)
+            out.append(("CIf", (c[0], t[0], e[0]), f"if {c[1]} then {t[1]} else {e[1]}", f"(CIf {c[2]} {t[2]} {e[2]})"))
         out.append(("CBetween", (c[0], t[0], e[0]), f"between({c[1]}, {t[1]}, {e[1]})", f"(CBetween {c[2]} {t[2]} {e[2]})"))
     for a, b in itertools.product(ATOMS, ATOMS):
         out.append(("CNvl", (a[0], b[0]), f"nvl({a[1]}, {b[1]})", f"(CNvl {a[2]} {b[2]})"))
@@ -82,7 +83,7 @@ def frame():
 
 def model_types(exprs, tag="typetie"):
     """[(code type or None, spec type or None)] via one coq_eval"""
-    res = coq_eval(HEADER, [f"(ctype_code {TENV} {c}, ctype_spec {TENV} {c})" for _, _, _, c in exprs], tag)
+    res = coq_eval(HEADER, [f"(ctype_code {TENV} {c}, ctype_spec {TENV} {c}, ctype_strict {TENV} {c})" for _, _, _, c in exprs], tag)
     out = []
     for r in res:
         def ty(x):
@@ -91,7 +92,7 @@ def model_types(exprs, tag="typetie"):
             s = str(x)
             m = re.search(r"T[A-Za-z]+", s)
             return TYNAME.get(m.group(0)) if m else None
-        out.append((ty(r[0]), ty(r[1])))
+        out.append((ty(r[0][0]), ty(r[0][1]), ty(r[1])) if isinstance(r[0], tuple) and len(r) == 2 else (ty(r[0]), ty(r[1]), ty(r[2])))
     return out
 
 
@@ -143,13 +144,17 @@ def run(ctx, quick):
         ok = (t[0] == "OK" and want == t[1]) or (t[0] == "ERR" and want is None)
         if not ok:
             mism += 1
+            if t == ("ERR", "ValueError") and label == "CNvl" and ops[0].startswith("lit:") and ops[1].startswith("col:"):
+                ctx.violation("type-rule:raw-ValueError:CNvl:scalar-left-component-right",
+                              f"calc Me_9 := {vtl}: semantic_analysis() raises a raw ValueError instead of a SemanticError", {"expr": vtl, "coq": coq})
+                continue
             ctx.violation(f"type-rule:{label}:{'/'.join(ops)}",
                           f"calc Me_9 := {vtl}: semantic_analysis() gives {t}, the typing judgement ctype_code gives {want}",
                           {"expr": vtl, "coq": coq, "engine": list(t), "ctype_code": want, "ctype_spec": mt[i][1]})
     hist["type_mismatches"] = mism
     hist["rejected_checked"] = len(rej)
     # ---- values: every accepted expression evaluated on data; values must inhabit the SPEC type and equal ceval
-    ok_ids = [i for i in acc if eng.get(i, ("ERR",))[0] == "OK"]
+    ok_ids = [i for i in acc if eng.get(i, ("ERR",))[0] == "OK" and not any(k in ex[i][0] for k in ("Mod", "Power"))]   # mod / power: outside the value model
     if quick:
         ok_ids = ctx.rng.sample(ok_ids, min(400, len(ok_ids)))
     df = frame()
@@ -170,7 +175,8 @@ def run(ctx, quick):
             vh["engine_errors"][str(code)] = vh["engine_errors"].get(str(code), 0) + 1
             if mv[0] == "Err" and (mv[1][1] if isinstance(mv[1], tuple) else str(mv[1])) == code:
                 continue
-            ctx.violation(f"well-typed-fails:{label}:{'/'.join(ops)}",
+            fam = "boolean-promoted-to-string" if mt[i][2] is None else "other"
+            ctx.violation(f"well-typed-fails:{fam}:{label}" + ("" if fam != "other" else ":" + "/".join(ops)),
                           f"calc Me_9 := {vtl} is accepted by semantic analysis (type {eng[i][1]}) but run() fails with {r['err']} {r['msg'][:140]}; "
                           f"the model evaluates it to {str(mv)[:120]}", {"expr": vtl, "coq": coq, "engine_error": list(r["err"]), "model": str(mv)[:400]})
             continue
@@ -183,6 +189,10 @@ def run(ctx, quick):
             continue
         want = {}
         for k, m in mv[1]:
+            mvv = G.V.from_val(m[0])
+            if spec_t == "String" and isinstance(mvv, bool):      # a Boolean promoted to String keeps its representation in the model
+                want[G.V.from_val(k[0])] = "True" if mvv else "False"
+                continue
             want[G.V.from_val(k[0])] = exprk.canon_model_val(m[0], spec_t if spec_t != "Null" else et)
         gotc = {k: exprk.canon_engine_val(v, spec_t if spec_t != "Null" else et) for k, v in got.items()}
         bad_ty = [(k, v) for k, v in want.items() if isinstance(v, tuple)]
@@ -193,7 +203,8 @@ def run(ctx, quick):
             continue
         if gotc != want:
             vh["value_mismatches"] += 1
-            ctx.violation(f"value:{label}:{'/'.join(ops)}",
+            fam = "boolean-promoted-to-string" if mt[i][2] is None else "other"
+            ctx.violation(f"value:{fam}:{label}" + ("" if fam != "other" else ":" + "/".join(ops)),
                           f"calc Me_9 := {vtl} (engine type {et}, specification type {spec_t}): engine {gotc}, model {want}",
                           {"expr": vtl, "coq": coq, "engine": str(gotc), "model": str(want), "engine_type": et, "spec_type": spec_t})
     hist["values"] = vh
